@@ -399,8 +399,24 @@ def _b_call(cls, attr, operand, params_j):
         return x[n1:n2:2]
     if key == ("BitStore", "invert"):
         y.invert(n1); return y
-    # an attribute the tables of this tree re-bind that the harness has no dedicated exerciser for: exercise everything
-    return [x.find(pat), x.rfind(pat), list(x.findall(pat)), x[n1:n2], x[n1:n2:2]]
+    # an attribute the tables of this tree re-bind that the harness has no dedicated exerciser for: call it with the
+    # first argument shape it accepts, and exercise the public search / slice entry points as well
+    target = {"Bits": x, "BitArray": y}.get(cls, getattr(y, "_bitstore", y))
+    got = "absent"
+    fn = getattr(target, attr, None)
+    if callable(fn):
+        got = "uncallable"
+        for args in ((pat,), (getattr(pat, "_bitstore", pat),), (n1,), (n1, n2), ()):
+            try:
+                r = fn(*args)
+                got = [canon(r), canon(target) if isinstance(target, Bits) else ""]
+                break
+            except TypeError:
+                continue
+            except Exception:
+                got = "err"
+                break
+    return [got, x.find(pat), x.rfind(pat), list(x.findall(pat)), x[n1:n2], x[n1:n2:2]]
 
 
 def run_op(f, operand=None):
